@@ -64,7 +64,7 @@ pub fn run(data: &[u8], ctx: &mut Ctx) -> Outcome {
         return Outcome::Pass;
     }
     // a generated envelope may itself carry 'sskrShare' assertions with arbitrary objects
-    if tm.assertions().iter().any(|a| matches!(a.subject(), M::Assertion(p, _) if **p == M::Known(6))) {
+    if tm.assertions().iter().any(|a| matches!(a.subject(), M::Assertion(p, _) if p.digest() == M::Known(6).digest())) {
         ctx.class("base-has-bogus-sskrShare");
         return Outcome::Pass;
     }
@@ -184,29 +184,63 @@ pub fn run(data: &[u8], ctx: &mut Ctx) -> Outcome {
     if let Ok(enc2) = enc2 {
         let mut rng2 = SeededRandomNumberGenerator::new([src.u64() | 1, 99, 3, 4]);
         if let Ok(shares2) = enc2.sskr_split_using(&sskr_spec, &ck2, &mut rng2) {
-            let flat2: Vec<Envelope> = shares2.into_iter().flatten().collect();
+            let flat2: Vec<(usize, Envelope)> = shares2.into_iter().enumerate().flat_map(|(gi, g)| g.into_iter().map(move |s| (gi, s))).collect();
             let other_bytes = other_env.subject().to_cbor_data();
+            // the two splits must be told apart by their 16-bit identifier; a collision (1 in 65536) is skipped
+            let ident = |e: &Envelope| -> Option<u16> {
+                e.assertions_with_predicate(bc_envelope::known_values::SSKR_SHARE).first().and_then(|a| a.subject().as_object()).and_then(|o| o.extract_subject::<bc_components::SSKRShare>().ok()).map(|s| s.identifier())
+            };
+            let collide = ident(&flat[0].1) == ident(&flat2[0].1);
             for _ in 0..8 {
-                let mut subset: Vec<&Envelope> = Vec::new();
-                for (_, s) in &flat {
+                if collide {
+                    break;
+                }
+                // (split, group, envelope) in generated presentation order
+                let mut subset: Vec<(usize, usize, &Envelope)> = Vec::new();
+                for (g, s) in &flat {
                     if src.bool() {
-                        subset.push(s);
+                        subset.push((0, *g, s));
                     }
                 }
-                for s in &flat2 {
+                for (g, s) in &flat2 {
                     if src.bool() {
-                        subset.push(s);
+                        subset.push((1, *g, s));
                     }
                 }
                 if subset.is_empty() {
                     continue;
                 }
-                let rot = src.below(subset.len());
-                subset.rotate_left(rot);
-                let r = nopanic!(ctx, Envelope::sskr_join(&subset), "mixed", "C11/mixed");
-                if let Ok(j) = r {
-                    let b = j.to_cbor_data();
-                    check!(ctx, b == expected_subject_bytes || b == other_bytes, "mixed", "C11/mixed/different-envelope", "joining shares mixed from two splits returned an envelope that is neither original");
+                // interleave: generated permutation
+                for i in 0..subset.len() {
+                    let j = i + src.below(subset.len() - i);
+                    subset.swap(i, j);
+                }
+                let quorum_of = |split: usize| -> bool {
+                    let mut present = vec![0usize; groups.len()];
+                    for (sp, g, _) in &subset {
+                        if *sp == split {
+                            present[*g] += 1;
+                        }
+                    }
+                    present.iter().zip(groups.iter()).filter(|(p, g)| **p >= g.0).count() >= group_threshold
+                };
+                let first_split = subset[0].0;
+                // the recovered key must open the FIRST envelope's subject: with one shared content key
+                // either split's quorum does, otherwise only the quorum of the first envelope's own split
+                let want_ok = if second_same_key { quorum_of(0) || quorum_of(1) } else { quorum_of(first_split) };
+                let refs: Vec<&Envelope> = subset.iter().map(|x| x.2).collect();
+                let r = nopanic!(ctx, Envelope::sskr_join(&refs), "mixed", "C11/mixed");
+                match r {
+                    Ok(j) => {
+                        let b = j.to_cbor_data();
+                        check!(ctx, b == expected_subject_bytes || b == other_bytes, "mixed", "C11/mixed/different-envelope", "joining shares mixed from two splits returned an envelope that is neither original");
+                        let want_bytes = if first_split == 0 { &expected_subject_bytes } else { &other_bytes };
+                        check!(ctx, &b == want_bytes, "mixed", "C11/mixed/different-envelope", "joining shares mixed from two splits returned the other split's original, not the one the first share envelope belongs to");
+                        check!(ctx, want_ok, "mixed", "C11/mixed/without-quorum", "joining shares mixed from two splits succeeded although no split whose key opens the first envelope has a quorum");
+                    }
+                    Err(err) => {
+                        check!(ctx, !want_ok, "mixed", "C11/mixed/quorum-fails", "joining shares mixed from two splits failed although split {} has a quorum among them (presentation order {:?}): {}", if quorum_of(first_split) { first_split } else { 1 - first_split }, subset.iter().map(|x| (x.0, x.1)).collect::<Vec<_>>(), err);
+                    }
                 }
                 ctx.class("mixed-subset");
             }
